@@ -758,15 +758,13 @@ impl SpillableHashAggregateExec {
         use crate::planner::AggregateFunction;
         use std::sync::atomic::{AtomicBool, Ordering as AtomicOrdering};
 
-        let plan_schema =
-            crate::planner::PlanSchema::from_qualified_arrow(self.input.schema().as_ref());
+        let input_schema = self.input.schema();
+        let plan_schema = crate::planner::PlanSchema::from_qualified_arrow(input_schema.as_ref());
         let input_types: Vec<arrow::datatypes::DataType> = self
             .aggregates
             .iter()
             .map(|a| {
-                a.input
-                    .data_type(&plan_schema)
-                    .unwrap_or(arrow::datatypes::DataType::Float64)
+                crate::physical::morsel_agg::agg_input_type(&a.input, &plan_schema, &input_schema)
             })
             .collect();
         let agg_funcs: Vec<AggregateFunction> = self.aggregates.iter().map(|a| a.func).collect();
